@@ -15,3 +15,12 @@ package nodestate
 //@ func (*app/node_state.NodeState).IsReplicationPermanentlyBroken
 //@   requires nonnil [safety]: ns != nil
 //@   ensures def [C17,C10,C01]: result0 == permBroken(ns)
+
+// ---- the observation function, replica half: which accessor of the status ends up in which field -------------------------
+//@ func (*app/node_state.SlaveState).FromReplicaStatus
+//@   requires nonnil [safety]: ss != nil && replStatus != nil
+//@   ensures obs.replica_fields [C04,C10,C11,C16,C01]: ss.ExecutedGtidSet == resultof("GetExecutedGtidSet", 1) && ss.RetrievedGtidSet == resultof("GetRetrievedGtidSet", 1) && ss.MasterHost == resultof("GetMasterHost", 1) && ss.ReplicationState == resultof("ReplicationState", 1) && ss.MasterLogFile == resultof("GetMasterLogFile", 1) && ss.MasterLogPos == resultof("GetReadMasterLogPos", 1) && ss.LastIOErrno == resultof("GetLastIOErrno", 1) && ss.LastSQLErrno == resultof("GetLastSQLErrno", 1)
+//@ func (*mysql.ReplicaStatusStruct).ReplicationState
+//@   ensures obs.state_replica [C04,C10,C11]: (result == mysql.ReplicationRunning <==> ss.ReplicaIORunning == "Yes" && ss.ReplicaSQLRunning == "Yes") && (result == mysql.ReplicationStopped <==> !(ss.ReplicaIORunning == "Yes" && ss.ReplicaSQLRunning == "Yes") && ss.LastIOErrno == 0 && ss.LastSQLErrno == 0) && (result == mysql.ReplicationRunning || result == mysql.ReplicationStopped || result == mysql.ReplicationError)
+//@ func (*mysql.SlaveStatusStruct).ReplicationState
+//@   ensures obs.state_slave [C04,C10,C11]: (result == mysql.ReplicationRunning <==> ss.SlaveIORunning == "Yes" && ss.SlaveSQLRunning == "Yes") && (result == mysql.ReplicationStopped <==> !(ss.SlaveIORunning == "Yes" && ss.SlaveSQLRunning == "Yes") && ss.LastIOErrno == 0 && ss.LastSQLErrno == 0) && (result == mysql.ReplicationRunning || result == mysql.ReplicationStopped || result == mysql.ReplicationError)
